@@ -186,7 +186,7 @@ func TestVerif_C33Origin(t *testing.T) {
 		rec(nil, d)
 	}
 	r := verifh.NewRand(verifh.Seed(), "c33o")
-	for i := 0; i < verifh.Scale(60, 3000); i++ {
+	for i := 0; i < verifh.Scale(200, 3000); i++ {
 		var ops [][]string
 		for j := 3 + r.Intn(8); j > 0; j-- {
 			ops = append(ops, alpha[r.Intn(len(alpha))])
